@@ -14,6 +14,8 @@ import Driver.TreeOps
 import Driver.SanOps
 import Driver.StreamOps
 import Driver.EncOps
+import Driver.BackendOps
+import Driver.SpecTreeOps
 import H5.Model.Walker
 import H5.Model.Sax
 import H5.Model.InjectMeta
@@ -109,7 +111,7 @@ def handle (ws : List String) : String :=
   | op :: rest =>
     if op.startsWith "xml:" then handleXml (op :: rest) else
     -- add-on op files: one `List String → Option String` handler each
-    match [handleTok, handleSpec, handleSer, handleTreeOps, handleSan, handleStream, handleEnc].findSome? (fun h => h (op :: rest)) with
+    match [handleTok, handleSpec, handleSer, handleTreeOps, handleSan, handleStream, handleEnc, handleBackend, handleSpecTree].findSome? (fun h => h (op :: rest)) with
     | some r => r
     | none => "bad-op"
   | _ => "bad-op"
@@ -119,6 +121,8 @@ partial def loop (h : IO.FS.Stream) (out : IO.FS.Stream) : IO Unit := do
   if line.isEmpty then return ()
   let ws := (line.trimAscii.toString.splitOn " ").filter (· ≠ "")
   out.putStrLn (handle ws)
+  -- interactive clients (shrinking loops of tools/spec_tree_corr.py) keep one driver open and read each answer at once
+  if (ws.head?.getD "").startsWith "treecmp" || (ws.head?.getD "").startsWith "spec-tree" then out.flush
   loop h out
 
 def main : IO Unit := do
